@@ -329,6 +329,7 @@ func (c *Cache[K, V]) writeWorker(s *shard[K, V]) {
 	defer c.workers.Done()
 	if verifEnabled {
 		verifAdopt(verifWorkerID(c, s))
+		defer verifRetire()
 	}
 
 	for {
